@@ -80,6 +80,18 @@ InitWith(keys, clients) ==
 
 Init == InitWith(Keys, Clients)
 
+(* back to the initial state (trace validation of concatenated runs) *)
+ResetWith(keys, clients) ==
+    /\ cache' = [k \in keys |-> Absent]
+    /\ db' = [k \in keys |-> NoVal]
+    /\ batch' = <<>>
+    /\ flight' = [k \in keys |-> NoClient]
+    /\ pc' = [c \in clients |-> Idle]
+    /\ ref' = [k \in keys |-> NoVal]
+    /\ allowed' = [c \in clients |-> {}]
+    /\ nops' = [c \in clients |-> 0]
+    /\ hist' = <<>>
+
 Log(step) == hist' = IF Gen THEN Append(hist, step) ELSE hist
 
 (* ---------------------------------------------------------------- writes *)
